@@ -436,3 +436,95 @@ def declare_toml(e):
         b = eng.coerce(b, TAbs("Path"))
         return [(s, Val(TAbs("Path"), eng.uf("ghost_path_join", [P, P], P)(a.t, b.t)))]
     e.binop_models[("/", "Path")] = path_div
+
+
+def declare_config(e):
+    """Models for configuration loading (C16): file objects, tomlkit, python-debian, VCS root discovery."""
+    import pathlib
+    import tomlkit
+    import reuse.report as rep
+    import reuse.vcs as vcs
+    import reuse.global_licensing as gl
+    from pyvc.state import Exc
+    reg = e.reg
+    P = reg.sort(TAbs("Path"))
+    for nm in ("TextFile", "TomlDict", "ReuseDep5", "Copyright"):
+        reg.declare("abs", nm)
+    reg.declare("ref", "_MultiprocessingContainer",
+                fields={"project": "Project", "has_dep5": "bool", "reuse_dep5": "Optional[ReuseDep5]", "do_checksum": "bool",
+                        "add_license_concluded": "bool"}, pyclass=rep._MultiprocessingContainer)
+
+    def m_open(eng, s, recv, name, args, kw, node):
+        fails = eng.uf("fs_open_fails", [P], z3.BoolSort())(recv.t)
+        bad, ok = eng.branch(s, fails, "open")
+        if bad is not None:
+            eng.raise_(bad, FileNotFoundError, where=node)
+        if ok is None:
+            return []
+        return [(ok, eng.fresh(TAbs("TextFile"), "fp"))]
+    e.method_models[("Path", "open")] = m_open
+
+    def with_file(eng, s, cm, var, body):
+        if var is not None:
+            eng.assign_target(s, var, cm)
+        return eng.exec_block(body, s)
+    e.with_models["TextFile"] = with_file
+
+    def m_file(eng, s, recv, name, args, kw, node):
+        if name != "read":
+            raise Unsupported(f"TextFile.{name}")
+        bad = s.copy()
+        bad.trace.append("read:undecodable")
+        eng.raise_(bad, UnicodeDecodeError, where=node)
+        return [(s, eng.fresh(STR, "file_text"))]
+    e.method_models[("TextFile", "*")] = m_file
+
+    def m_loads(eng, s, args, kw, node):
+        bad = s.copy()
+        bad.trace.append("toml:syntax")
+        eng.raise_(bad, tomlkit.exceptions.TOMLKitError, where=node)
+        return [(s, eng.fresh(TAbs("TomlDict"), "tomldict"))]
+    e.func_models[tomlkit.loads] = m_loads
+
+    from debian.copyright import Copyright
+    from debian.copyright import Error as DebianError
+
+    def m_copyright(eng, s, args, kw, node):
+        for exc in (DebianError, ValueError, UnicodeDecodeError):
+            bad = s.copy()
+            bad.trace.append("dep5:" + exc.__name__)
+            eng.raise_(bad, exc, where=node)
+        return [(s, eng.fresh(TAbs("Copyright"), "dep5"))]
+    e.func_models[Copyright] = m_copyright
+
+    def m_reusedep5(eng, s, args, kw, node):
+        return [(s, eng.fresh(TAbs("ReuseDep5"), "reuse_dep5"))]
+    e.func_models[gl.ReuseDep5] = m_reusedep5
+
+    def dep5_as_gl(eng, v, ty):
+        f = eng.uf("as_global_licensing", [reg.sort(TAbs("ReuseDep5"))], reg.sort(TAbs("GlobalLicensing")))
+        return Val(TAbs("GlobalLicensing"), f(v.t))
+    e.coerce_hooks[("abs", "GlobalLicensing")] = dep5_as_gl
+
+    def m_find_root(eng, s, args, kw, node):
+        return [(s, eng.fresh(TOpt(TAbs("Path")), "found_root"))]
+    e.func_models[vcs.find_root] = m_find_root
+
+    def m_cwd(eng, s, recv, args, kw, node=None):
+        return [(s, eng.fresh(TAbs("Path"), "cwd"))]
+    e.func_models[pathlib.Path.cwd.__func__] = lambda eng, s, args, kw, node: [(s, eng.fresh(TAbs("Path"), "cwd"))]
+
+    # attributes / str() of caught exception objects: opaque strings
+    def exc_attr(name):
+        def model(eng, s, base, node):
+            v = base.t.attrs.get(name)
+            if isinstance(v, Val):
+                return [(s, v)]
+            return [(s, eng.fresh(STR, "exc_" + name))]
+        return model
+    for a in ("source", "filename", "args"):
+        e.py_attr_models[(Exc, a)] = exc_attr(a)
+
+    def exc_to_pyexc(eng, v, ty):
+        return eng.fresh(TAbs("PyExc"), "exc_value")
+    e.coerce_hooks[("Exc", "PyExc")] = exc_to_pyexc
